@@ -26,8 +26,8 @@ CHECKS = {
          'memkv for goleveldb; gas price 50000 and 4 admins; admin-grant path not in the alphabet', '5 C14'),
  'C10': ('enum', 'model_checking',
          'bounded-exhaustive enumeration of write sets x permutations x read patterns x residency on the real StateLedger',
-         'Every set of <=3 (thorough <=4) writes over 8 targets is executed in every order, read pattern and residency (cache, reopened, purged) on the real SimpleLedger: equal write sets must give equal roots, change sets differing in one item and equal changes on different previous roots must give different roots; tx/receipt Merkle roots likewise for every permutation and single-field perturbation.',
-         'memkv stands in for goleveldb (same observable semantics); universe of 2 accounts, 3 keys, 2-3 values', '5 C10'),
+         'Every set of <=3 (thorough <=4) writes over 8 targets is executed in every order, read pattern and residency (cache, reopened, purged) on the real SimpleLedger: equal write sets must give equal roots, change sets differing in one item and equal changes on different previous roots must give different roots; tx root and receipt root (real executor functions): all 205 ordered selections of 1..4 of 5 distinct transactions pairwise distinct, 13 single-field transaction variants and 10 variants of every receipt field covered by the receipt hash at every position of every 0..2-element context, all orders of 3 receipts.',
+         'memkv stands in for goleveldb (same observable semantics); universe of 2 accounts, 3 keys, 2-3 values; lists carrying one transaction twice are not explored', '5 C10'),
  'C11': ('crashmc', 'fault_enumeration',
          'exhaustive enumeration of crash states (products of per-writer prefixes of the recorded durable writes of a block commit), each reopened through the real ledger.New and compared with a never-crashed replica',
          'For every block commit of three scenarios (heights 13-16 with journal pruning, heights 2-4, genesis) all products of prefixes of state-store batches x chain-index batch x ordered blockfile appends are materialised and reopened; opens, height, readable hash-linked blocks, state version/root/content equal to the never-crashed replica, and re-execution of the remaining blocks are checked. Opens that would spin forever or continuations that would kill the process are confirmed in CPU-limited subprocesses. Five structural defects are recorded as known findings (22 class signatures).',
@@ -64,8 +64,8 @@ CHECKS.update({
 CHECKS.update({
  'C03': ('probemc', 'model_checking',
          'exhaustive product origin x rule x proof variant x block position x proof-checking mode on the real executor, decided differentially; exhaustive short sequences of direct entry-point calls',
-         '36 (origin, rule, proof) variants — accept-all rule, erroring rule, deployed WASM rule answering plain true/false, receipts against the destination rule, unregistered / logged-out origin, remote BitXHub with 0..4 distinct registered signers, duplicates, unregistered signers, signatures over another status / IBTP, garbage proof — x {alone, first, last} x {serial, parallel}: an IBTP failing the predicate must get a FAILED receipt and change nothing but nonce/fee, one satisfying it must be accepted; all sequences of <=2 direct calls of the interchain entry points by an outsider (audit off/on) must not process an IBTP. Worker subprocesses detect node crashes.',
-         'WASM rule assembled from WAT at run time; SimFabric rule stands for an erroring rule; rule update mid-history not yet in the product', '5 C03'),
+         '40 (origin, rule, proof) variants — accept-all rule, erroring rule, deployed WASM rule answering plain true/false, receipts against the destination rule, unregistered / logged-out origin, remote BitXHub with 0..4 distinct registered signers, duplicates, unregistered signers, signatures over another status / IBTP, garbage proof — x {alone, first, last} x {serial, parallel}: an IBTP failing the predicate must get a FAILED receipt and change nothing but nonce/fee, one satisfying it must be accepted; all sequences of <=2 direct calls of the interchain entry points by an outsider (audit off/on) must not process an IBTP. Worker subprocesses detect node crashes.',
+         'WASM rule assembled from WAT at run time; SimFabric rule stands for an erroring rule; rule update pending/approved/rejected are variants', '5 C03'),
  'C08': ('probemc', 'model_checking',
          'bounded-exhaustive input enumeration (payload truncations, field-replacement menus, argument vectors for every reflected method) executed on the real executor in crash-attributing worker subprocesses',
          'Every payload truncation and 13+ field replacements of one well-formed transaction of 6 kinds, 24 (type, vm) pairs each, 60 IBTP field mutations, and for all 572 dispatchable methods argument vectors of length 0, n-1, n, n+1 from 4 domains (quick: one third of these), each first/last in a block beside two valid transactions and followed by two blocks; oracle: process survives, one receipt per transaction in order with its hash, valid neighbours succeed, height +1, following blocks execute.',
@@ -80,8 +80,8 @@ CHECKS.update({
 CHECKS.update({
  'C15': ('govmc', 'model_checking',
          'explicit-state BFS over proposal / vote / withdrawal / electorate-change histories on the real executor against an independent tally model',
-         'All histories up to depth 5 (thorough 6) of open, vote (approve / reject / garbage) by the super admin, the next normal admin (normal admins are symmetric), the same admin again, an outsider, a frozen admin, withdraw by proposer / other, and an approved freeze of an admin before or while a proposal is open, for admin sets {1 super+3, 1 super+2, 2 super+2} x strategies {a>0.5t, a>=t, a>=2, a>=1, a>0.5t&&r<2} x proposal kinds {node registration, admin registration (special), appchain freeze (special)}; after each step receipt verdict, status, tallies/ballots and the governed object are compared with the model (govaluate on a, r, t, available electors).',
-         'one explored proposal at a time per history (plus the freeze proposal); priority locking between proposals on one object is exercised in C16', '5 C15'),
+         'All histories up to depth 5 (thorough 6) of open, vote (approve / reject / garbage) by the super admin, the next normal admin (normal admins are symmetric), the same admin again, an outsider, a frozen admin, withdraw by proposer / other, and an approved freeze of an admin before or while a proposal is open, for admin sets {1 super+3, 1 super+2, 2 super+2} x strategies {a>0.5t, a>=t, a>=2, a>=1, a>0.5t&&r<2} x proposal kinds {node registration, admin registration (special), appchain freeze (special)}; after each step receipt verdict, status, tallies/ballots and the governed object are compared with the model (govaluate on a, r, t, available electors). Second BFS: two proposals on one object (freeze = lower priority, logout = higher priority pausing it) on a service and an appchain, votes and withdrawals on both, against the voting rule plus the locking discipline (paused proposal not votable, restored or rejected when the locking proposal concludes, concluded records immutable).',
+         'first engine: one explored proposal at a time per history (plus the admin-freeze proposal); second engine: one lower- and one higher-priority proposal per history', '5 C15'),
 })
 CHECKS.update({
  'C20': ('ordermc', 'model_checking',
@@ -94,6 +94,12 @@ CHECKS.update({
          'explicit-state BFS (validated-by-construction abstraction key) over governance operations, IBTP probes and restarts on the real executor against declared lifecycle relations and a gating predicate on stored statuses',
          'All histories up to depth 6 (thorough 7) of submit freeze/activate/logout on appchain A, service A:s1 and destination service B:s2, conclusion of the open proposal by approval or rejection, requests A:s1->B:s2 and B:s2->A:s1 before/during/after each transition, and node restarts; every observed status change must be an edge of the declared state machine for that trigger or a cascade of the owning appchain, forbidden is absorbing, refused operations change nothing, approved appchain freeze/logout leaves no service usable, and each request is accepted / begin-failed (status + source notified) / rejected without record according to the stored availability of source and destination.',
          'declared FSMs and availability sets transcribed into the harness; abstraction merges histories differing only in heights/nonces/ids/counters; rules, roles, nodes are covered by C03/C15/C17', '5 C16'),
+})
+CHECKS.update({
+ 'C01': ('detmc', 'model_checking',
+         'exhaustive deviation-bounded exploration of the real executor: for the last block of every macro-block history, one environment deviation per execution (each dynamic map iteration in each alternative order, each fork-join section in each serial order, restart at every position, cache purge, proof mode, clock shift) with a differential oracle on all block results',
+         'All histories up to depth 3 (thorough 4) over 18 macro blocks (transfers incl. failing, IBTP requests/receipts on three pairs, timeouts expiring together and apart, one-to-many begin/receipts, wasm- and fabric-rule proofs valid/invalid/malformed, governance proposals and votes incl. appchain freeze/logout cascades, strategy update, service update with and without proposal, dapp registration, XVM deploy, invalid signature, unknown method) plus 5 histories right after genesis. The last block of each history is executed on: a replica restarted just before it (reference), the never-restarted replica, replicas restarted before each earlier block, with the account cache purged, with parallel proof verification, with the wall clock shifted, and - one deviation per execution - with every dynamic range-over-map of the executor, contracts, ledger, proof and VM packages in every other order (all permutations up to 4 keys; reversal, rotations, adjacent transpositions above) and every fork-join section in every serial order. Block hash, all roots, parent hash, bloom, every receipt, interchain/timeout/multi-tx metadata and the persisted world state must be identical. The map/fork-join/clock seams are rewritten into copies of the current sources by tools/maprewrite (go/types based) and delivered through the build overlay.',
+         'deviation bound 1 (one map iteration or fork-join section deviates per execution); fork-join bodies run atomically in every serial order (no preemption inside a body); sync.Map.Range and library-internal iteration (json, protobuf: sorted) are not seams; restart = reopen on the persisted data (crash points inside a block are C11); the genesis/BNS restart defect is a known finding', '5 C01'),
 })
 REASON_WIP = 'check not built yet (work in progress; see DESIGN.md section 10)'
 def main():
@@ -131,6 +137,7 @@ def main():
             {'name': 'probemc', 'path': 'harness/checks/probe.go', 'serves_properties': ['C03', 'C07', 'C08', 'C17'], 'kind_free_text': 'exhaustive probe product with differential oracle, sharded over worker subprocesses'},
             {'name': 'govmc', 'path': 'harness/checks/c15.go', 'serves_properties': ['C15', 'C16'], 'kind_free_text': 'explicit-state BFS over governance histories'},
             {'name': 'ordermc', 'path': 'harness/checks/c20.go', 'serves_properties': ['C20'], 'kind_free_text': 'range enumeration + choice-point DFS over the real syncer + BFS over the real raft apply path'},
+            {'name': 'detmc', 'path': 'harness/checks/c01.go', 'serves_properties': ['C01'], 'kind_free_text': 'deviation-bounded exhaustive exploration of environment choices (map order, fork-join order, restart position, cache, clock) with a differential oracle; seams rewritten in by tools/maprewrite + harness/vrt'},
             {'name': 'enum', 'path': 'harness/checks/c10.go', 'serves_properties': ['C10'], 'kind_free_text': 'bounded-exhaustive enumeration'},
         ],
         'checks': checks,
